@@ -344,5 +344,101 @@ def _c20():
             lines.append("Definition value_de_swaps : bool := %s." % ("true" if re.search(r"Ok\(Value::Explicit\(u64::swap_bytes\(x\)\)\)", bd) else "false"))
     lines.append("")
 
+    # ---------------------------------------------------------------- derived serde of the PSET types: field lists and serde attributes
+    lines.append("(* C20: serde_derive'd PSET structs: (field name, \"type|attribute\") in declaration order; Model/SerdePset.v maps the strings to codecs *)")
+    here = os.path.dirname(os.path.abspath(_piece)) if "_piece" in globals() else os.path.dirname(os.path.abspath(__file__))
+    try:
+        known_keys = set(re.findall(r'\(K "([^"]*)"', open(os.path.join(here, "..", "coq", "Model", "SerdePset.v")).read()))
+    except OSError:
+        known_keys = None
+        errors.append("coq/Model/SerdePset.v not readable: cannot check the field types of the derived PSET structs against the model")
+
+    def split_top(body):
+        """split a struct body at top-level commas (outside <>, (), [], {})"""
+        out, depth, cur = [], 0, ""
+        for ch in body:
+            if ch in "<([{":
+                depth += 1
+            elif ch in ">)]}":
+                depth -= 1
+            if ch == "," and depth == 0:
+                out.append(cur); cur = ""
+            else:
+                cur += ch
+        if cur.strip():
+            out.append(cur)
+        return out
+
+    def derived_struct(rel, name, coqname=None):
+        s = strip_comments(src(rel))
+        m = re.search(r"((?:#\[[^\]]*\]\s*)*)pub\s+struct\s+%s\b[^{;(]*\{" % name, s)
+        if not m:
+            errors.append("derived struct %s not found in src/%s" % (name, rel)); return
+        attrs = re.sub(r"\s+", "", m.group(1))
+        if "derive(serde::Serialize,serde::Deserialize)" not in attrs:
+            errors.append("struct %s (src/%s) no longer derives serde::Serialize, serde::Deserialize" % (name, rel))
+        if re.search(r"serde\((?!crate)", attrs.replace("derive(serde::Serialize,serde::Deserialize)", "")):
+            errors.append("struct %s (src/%s) carries a container-level serde attribute the model does not know: %s" % (name, rel, attrs))
+        b = body_after(s[m.start():], r"pub\s+struct\s+%s\b[^{;(]*\{" % name, "struct %s" % name)
+        rows = []
+        for item in split_top((b or "{}")[1:-1]):
+            item = item.strip()
+            if not item:
+                continue
+            fm = re.fullmatch(r"((?:#\[.*?\]\s*)*)(?:pub(?:\([a-z]+\))?\s+)?([a-z_0-9]+)\s*:\s*(.+)", item, flags=re.S)
+            if not fm:
+                errors.append("struct %s: cannot read field `%s`" % (name, item[:60])); continue
+            fattrs, fname, fty = re.sub(r"\s+", "", fm.group(1)), fm.group(2), re.sub(r"\s+", "", fm.group(3))
+            sattrs = re.findall(r"serde\(([^()]*(?:\([^()]*\))?[^()]*)\)", fattrs)
+            attr = ""
+            for a in sattrs:
+                w = re.fullmatch(r'with="crate::serde_utils::([a-z_]+)"', a)
+                d = re.fullmatch(r'deserialize_with="([a-z_:]+)"', a)
+                if w and not attr:
+                    attr = w.group(1)
+                elif d and not attr:
+                    attr = d.group(1)
+                else:
+                    errors.append("struct %s field %s: serde attribute `%s` has no counterpart in the model (flatten / rename / default / skip change the wire form)" % (name, fname, a))
+            key = "%s|%s" % (fty, attr)
+            if known_keys is not None and key not in known_keys:
+                errors.append("struct %s field %s: type/attribute `%s` has no codec in coq/Model/SerdePset.v (a field was added or its type or serde attribute changed)" % (name, fname, key))
+            rows.append((fname, key))
+        lines.append("Definition pset_serde_%s : list (list byte * list byte) := [%s]." % (coqname or name, "; ".join("(%s, %s)" % (blist(n), blist(k)) for n, k in rows)))
+
+    derived_struct("pset/mod.rs", "PartiallySignedTransaction")
+    derived_struct("pset/map/global.rs", "TxData")
+    derived_struct("pset/map/global.rs", "Global")
+    derived_struct("pset/map/input.rs", "Input")
+    derived_struct("pset/map/output.rs", "Output")
+    derived_struct("pset/raw.rs", "Key")
+    derived_struct("pset/raw.rs", "ProprietaryKey")
+    derived_struct("schnorr.rs", "SchnorrSig")
+    derived_struct("taproot.rs", "ControlBlock")
+    # the helpers of src/serde_utils.rs the model transcribes
+    s = strip_comments(src("serde_utils.rs"))
+    for mod in ("btreemap_byte_values", "btreemap_as_seq", "btreemap_as_seq_byte_values", "hex_bytes"):
+        b = body_after(s, r"pub\s+mod\s+%s\s*\{" % mod, "mod %s in src/serde_utils.rs" % mod)
+        if b is None:
+            continue
+        if b.count("is_human_readable()") != 2:
+            errors.append("serde_utils::%s no longer branches on is_human_readable in serialize and deserialize" % mod)
+        if mod != "hex_bytes" and b.count("serde::Serialize::serialize(v, s)") != 1 or b.count("serde::Deserialize::deserialize(d)") != 1:
+            errors.append("serde_utils::%s no longer falls back to the plain impl when not human readable" % mod)
+    b = body_after(s, r"pub\s+mod\s+btreemap_byte_values\s*\{", "mod btreemap_byte_values")
+    if b is not None and ("a.next_entry::<T, String>()?" not in b or "map.serialize_entry(key, &value.to_lower_hex_string())?" not in b):
+        errors.append("serde_utils::btreemap_byte_values no longer writes hex-string values and reads them as owned strings (F30)")
+    b = body_after(s, r"pub\s+mod\s+btreemap_as_seq\s*\{", "mod btreemap_as_seq")
+    if b is not None and ("seq.serialize_element(&pair)?" not in b or "while let Some((key, value)) = a.next_element()?" not in b):
+        errors.append("serde_utils::btreemap_as_seq no longer writes / reads a sequence of (key, value) pairs")
+    b = body_after(s, r"pub\s+mod\s+btreemap_as_seq_byte_values\s*\{", "mod btreemap_as_seq_byte_values")
+    if b is not None and ("seq.serialize_element(&BorrowedPair(key, value))?" not in b or "OwnedPair(key, value)) = a.next_element()?" not in b
+                          or b.count('with = "crate::serde_utils::hex_bytes::') != 2):
+        errors.append("serde_utils::btreemap_as_seq_byte_values no longer writes / reads (key, hex bytes) tuple structs")
+    s = strip_comments(src("taproot.rs"))
+    if not re.search(r"fn\s+deserialize_parity<'de,\s*D:\s*serde::Deserializer<'de>>\(d:\s*D\)\s*->\s*Result<secp256k1_zkp::Parity,\s*D::Error>\s*\{\s*let\s+v\s*=\s*<u8\s+as\s+serde::Deserialize>::deserialize\(d\)\?;\s*secp256k1_zkp::Parity::from_u8\(v\)\.map_err\(serde::de::Error::custom\)", s):
+        errors.append("taproot::deserialize_parity (a u8 through Parity::from_u8; repair of F29) not found")
+    lines.append("")
+
 
 _c20()
